@@ -189,7 +189,12 @@ def gen_recipe(rng):
       st.append(["BackgroundColor", rng.choice(["transparent", "transparent", "red", "halfblue"])])
       if rng.random() < 0.5:
         st.append(["ShowBackground", rng.choice(["always", "whenActive"])])
-    regions.append({"id": rid, "begin": b, "end": e, "styles": st, "anims": _anims(rng, REGION_PAINT_PROPS, 0.35)})
+    anims = _anims(rng, REGION_PAINT_PROPS, 0.35)
+    if not anims and rng.random() < 0.3:
+      # a background that only an animation step makes visible (or invisible)
+      pn = rng.choice(["BackgroundColor", "ShowBackground", "Opacity", "Display", "Visibility"])
+      anims = [[pn, rng.choice(TIMES[:8]), rng.choice([None] + TIMES[4:12]), rng.choice(sorted(VALS[pn]))]]
+    regions.append({"id": rid, "begin": b, "end": e, "styles": st, "anims": anims})
   initial = []
   if rng.random() < 0.3:
     for pn in rng.sample(["ShowBackground", "BackgroundColor", "Display", "Color", "Opacity", "Visibility", "FontSize", "Extent", "Origin", "TextAlign"], rng.choice([1, 1, 2])):
